@@ -153,10 +153,7 @@ def coarse(file, qual, label, params, signals=True, cls_inv=True):
 
 # steps of the lifecycle as seen by Deep.start/shutdown: each may fail (network, plugins, pending deliveries)
 coarse("task/__init__.py", "TaskHandler.flush", "flush", {"self": OBJ("TaskHandler", inv=False)})
-coarse(PL, "LongPoll.shutdown", "poll.shutdown", {"self": OBJ("LongPoll", inv=False)})
 coarse("api/plugin/__init__.py", "load_plugins", "load_plugins", {"config": VAL, "custom": VAL}, signals=False).result = FRESH("list")
-coarse("api/resource/__init__.py", "Resource.create", "Resource.create", {"attributes": VAL, "schema_url": VAL},
-       signals=False).result = FRESH("Resource")
 coarse("api/resource/__init__.py", "Resource.merge", "Resource.merge", {"self": VAL, "other": VAL},
        signals=False).result = FRESH("Resource")
 
